@@ -147,27 +147,45 @@ func (c *TreeCacheClientImpl) ReadUpdatesOwner(ctx context.Context, owner string
 
 	ownerPaths := c.getPathsOfOwner(ctx, owner)
 
-	return c.Read(ctx, &cache.Opts{
-		Store: cachepb.Store_INTENDED,
-		Owner: owner,
-	}, ownerPaths.paths.ToStringSlice())
+	// The cache honours the Owner of a read only in combination with a Priority. Without it the
+	// highest precedence entry of each path is returned, whoever owns it. So the owners
+	// entries are read with the priority they are stored under.
+	result := UpdateSlice{}
+	for prio, paths := range ownerPaths {
+		result = append(result, c.Read(ctx, &cache.Opts{
+			Store:    cachepb.Store_INTENDED,
+			Owner:    owner,
+			Priority: prio,
+		}, paths.paths.ToStringSlice())...)
+	}
+	return result
 }
 
-func (c *TreeCacheClientImpl) getPathsOfOwner(ctx context.Context, owner string) *PathSet {
+// getPathsOfOwner returns the paths the given owner holds in the intended store, per priority they are stored with.
+func (c *TreeCacheClientImpl) getPathsOfOwner(ctx context.Context, owner string) map[int32]*PathSet {
+	c.intendedStoreIndexMutex.RLock()
 	if c.intendedStoreIndex == nil {
+		c.intendedStoreIndexMutex.RUnlock()
 		c.RefreshCaches(ctx)
+		c.intendedStoreIndexMutex.RLock()
 	}
+	defer c.intendedStoreIndexMutex.RUnlock()
 
-	p := NewPathSet()
+	result := map[int32]*PathSet{}
 	for _, keyMeta := range c.intendedStoreIndex {
 		for _, k := range keyMeta {
 			if k.Owner() == owner {
+				p, exists := result[k.Priority()]
+				if !exists {
+					p = NewPathSet()
+					result[k.Priority()] = p
+				}
 				// if the key is not yet listed in the keys slice, add it otherwise skip
 				p.AddPath(k.GetPath())
 			}
 		}
 	}
-	return p
+	return result
 }
 
 // ReadRunning reads the value from running if the value does not exist, nil is returned
